@@ -450,8 +450,8 @@ func checkShiftInvariant(p *Program, r *Report) {
 // positions of one node, possibly scaled down — with a constant that rejects
 // only runs the 16-bit step (in units of 4 bits) cannot hold: (k+1)<<scale >=
 // 2^18 bits. Anything else rejects input the documentation admits.
-func checkRejectReasons(p *Program, r *Report) {
-	r.Rule("C08.accept", "dataflow+CFG", "construction fails only for disorder or a run the 16-bit step cannot hold", 2)
+func checkRejectReasonsAs(p *Program, r *Report, rule string) {
+	r.Rule(rule, "dataflow+CFG", "construction fails only for disorder or a run the 16-bit step cannot hold", 2)
 	entry := p.Trie.Func("NewSlimTrie")
 	F := findBuilder(p, entry)
 	if entry == nil || F == nil {
